@@ -1,6 +1,7 @@
 //! Conformance harness for signal-hook: drives the real crates (built from /repo with
 //! `--cfg sighook_verif`) and writes NDJSON traces for TLC.
 
+mod channel;
 mod halflock;
 mod sched;
 mod trace;
@@ -55,6 +56,7 @@ fn main() {
     let args = Args::parse(&argv[2..]);
     let code = match argv[1].as_str() {
         "halflock" => halflock::main(&args),
+        "channel" => channel::main(&args),
         other => {
             eprintln!("unknown component {}", other);
             2
